@@ -1,8 +1,189 @@
-From Coq Require Import ZArith List.
-From Cspuz Require Import Lib.PyErr Core.Expr Core.Program Graph.GraphModel Graph.Avc Graph.NotAdj.
-Theorem not_adjacent_wrapper_type_errors : forall st h w l g l',
+(* C08 - active_vertices_not_adjacent / active_vertices_not_adjacent_and_not_segmenting
+   match their graph definitions *)
+From Coq Require Import ZArith List Bool Arith.
+From Cspuz Require Import Lib.PyErr Core.Expr Core.Program Core.Build
+  Graph.GraphModel Graph.ReachProofs Graph.Avc Graph.AvcProofs
+  Graph.NotAdj Graph.NotAdjForest Graph.NotAdjDiag Graph.NotAdjBounded Graph.NotAdjSem Graph.NotAdjMain
+  Graph.NotAdjCompose.
+Import ListNotations.
+Local Open Scope nat_scope.
+
+(* explicit graph: one constraint per edge (a Python bool when both endpoints
+   are Python bools), satisfied exactly when no edge has two active endpoints;
+   any multigraph, self-loops included; list or BoolArray1D *)
+Theorem not_adjacent_graph_exact : forall st acts g (arr : bool),
+  (forall a b, In (a, b) (edges g) -> a < length acts /\ b < length acts) ->
+  (forall a, In a acts -> is_bool_expr_like a = true) ->
+  exists st',
+    post_not_adjacent st (if arr then AArr1 acts else ASeq acts) (Some g) = (st', None) /\
+    vars st' = vars st /\ keys st' = keys st /\ (exists cs, cons st' = cons st ++ cs) /\
+    forall en, acts_defined en acts ->
+      (forallb (holds gsem_avc en) (new_cons st st') = true <-> independent g (pattern en acts)).
+Proof. exact NotAdjSem.not_adjacent_graph_exact. Qed.
+Print Assumptions not_adjacent_graph_exact.
+
+(* grid form, every shape (0xN, Nx0, 1xN, Nx1 included): the two shifted-slice
+   conjunctions hold exactly when the explicit-graph form on _grid_graph(h, w) does *)
+Theorem not_adjacent_grid_exact : forall st h w l,
+  length l = h * w ->
+  exists st',
+    post_not_adjacent st (AArr2 h w l) None = (st', None) /\
+    vars st' = vars st /\ keys st' = keys st /\ (exists cs, cons st' = cons st ++ cs) /\
+    forall en, acts_defined en l ->
+      (forallb (holds gsem_avc en) (new_cons st st') = true <-> independent (grid_graph h w) (pattern en l)).
+Proof. exact NotAdjSem.not_adjacent_grid_exact. Qed.
+Print Assumptions not_adjacent_grid_exact.
+
+(* explicit graph, auxiliary-variable route: completable exactly when the
+   pattern is independent and the inactive vertices are connected (uses C04's avc_exact) *)
+Theorem not_segmenting_graph_exact : forall st l g st' en,
+  wf_graph g = true -> length l = nv g ->
+  (forall a, In a l -> is_bool_expr_like a = true) ->
+  fresh_below (next_id st) l -> acts_defined en l ->
+  post_not_segmenting false st (AArr1 l) (Some g) = (st', None) ->
+  ((exists en', agree_below (next_id st) en en' /\
+                in_bounds_from en' (next_id st) (new_vars st st') = true /\
+                forallb (holds gsem_avc en') (new_cons st st') = true)
+   <-> spec_not_segmenting g (pattern en l)).
+Proof. exact NotAdjCompose.not_segmenting_graph_exact. Qed.
+Print Assumptions not_segmenting_graph_exact.
+
+(* explicit graph, native-operator route (operator meaning := connectivity) *)
+Theorem not_segmenting_graph_primitive : forall st l g st',
+  wf_graph g = true -> length l = nv g ->
+  (forall a, In a l -> is_bool_expr_like a = true) ->
+  post_not_segmenting true st (AArr1 l) (Some g) = (st', None) ->
+  vars st' = vars st /\
+  forall en, acts_defined en l ->
+    (forallb (holds gsem_avc en) (new_cons st st') = true <-> spec_not_segmenting g (pattern en l)).
+Proof. exact NotAdjCompose.not_segmenting_graph_primitive. Qed.
+Print Assumptions not_segmenting_graph_primitive.
+
+(* the rank certificate of the specialised encoding: an in-range rank
+   assignment passing the checker exists exactly when the diagonal-adjacency
+   graph on the active cells is a forest (every diagonal pair of active cells is
+   a bridge) whose trees contain at most one border cell each; all h, w *)
+Theorem diag_cert : forall h w act,
+  (exists rank, diag_ranks_in_range h w rank /\ cert_diag h w act rank = true) <-> spec_diag h w act.
+Proof. exact NotAdjDiag.diag_cert. Qed.
+Print Assumptions diag_cert.
+
+(* ... and the posted rank block is that certificate: all h, w with h*w >= 1 *)
+Theorem diag_cert_exact : forall st h w l en,
+  1 <= h * w -> length l = h * w -> (forall a, In a l -> is_boolexpr a = true) ->
+  fresh_below (next_id st) l -> acts_defined en l ->
+  exists st',
+    post_diag st h w l = (st', None) /\
+    ((exists en', agree_below (next_id st) en en' /\
+                  in_bounds_from en' (next_id st) (new_vars st st') = true /\
+                  forallb (holds gsem_avc en') (new_cons st st') = true)
+     <-> spec_diag h w (pattern en l)).
+Proof. exact NotAdjMain.diag_cert_exact. Qed.
+Print Assumptions diag_cert_exact.
+
+(* the executable forest check used by the search and by the bounded theorem *)
+Theorem spec_diag_b_decides : forall h w act, spec_diag_b h w act = true <-> spec_diag h w act.
+Proof. exact NotAdjDiag.spec_diag_b_spec. Qed.
+Print Assumptions spec_diag_b_decides.
+
+(* bounded: on independent patterns of grids with h, w >= 2 and h*w <= 12 the
+   diagonal forest condition is "the inactive cells are connected" (kernel
+   computation over all patterns of all such shapes).  The unbounded statement
+   NotAdj.diag_equiv_statement is NOT proved. *)
+Theorem diag_equiv_bounded : forall h w act, 2 <= h -> 2 <= w -> h * w <= 12 ->
+  independent (grid_graph h w) act ->
+  (spec_diag h w act <-> connected (grid_graph h w) (inactive act)).
+Proof. exact NotAdjBounded.diag_equiv_12. Qed.
+Print Assumptions diag_equiv_bounded.
+
+(* grid form, h, w >= 2, every size: completable exactly when independent and
+   the diagonal forest condition holds *)
+Theorem not_segmenting_grid_diag_exact : forall cfg st h w l en,
+  2 <= h -> 2 <= w -> length l = h * w -> (forall a, In a l -> is_boolexpr a = true) ->
+  fresh_below (next_id st) l -> acts_defined en l ->
+  exists st',
+    post_not_segmenting cfg st (AArr2 h w l) None = (st', None) /\
+    ((exists en', agree_below (next_id st) en en' /\
+                  in_bounds_from en' (next_id st) (new_vars st st') = true /\
+                  forallb (holds gsem_avc en') (new_cons st st') = true)
+     <-> (independent (grid_graph h w) (pattern en l) /\ spec_diag h w (pattern en l))).
+Proof. exact NotAdjCompose.not_segmenting_grid_diag_exact. Qed.
+Print Assumptions not_segmenting_grid_diag_exact.
+
+(* grid form, h, w >= 2, h*w <= 12: exactly the graph definition *)
+Theorem not_segmenting_grid_exact_bounded : forall cfg st h w l en,
+  2 <= h -> 2 <= w -> h * w <= 12 ->
+  length l = h * w -> (forall a, In a l -> is_boolexpr a = true) ->
+  fresh_below (next_id st) l -> acts_defined en l ->
+  exists st',
+    post_not_segmenting cfg st (AArr2 h w l) None = (st', None) /\
+    ((exists en', agree_below (next_id st) en en' /\
+                  in_bounds_from en' (next_id st) (new_vars st st') = true /\
+                  forallb (holds gsem_avc en') (new_cons st st') = true)
+     <-> spec_not_segmenting (grid_graph h w) (pattern en l)).
+Proof. exact NotAdjCompose.not_segmenting_grid_exact_bounded. Qed.
+Print Assumptions not_segmenting_grid_exact_bounded.
+
+(* ... and for every size if the planar-separation statement were available *)
+Theorem not_segmenting_grid_exact_if_diag_equiv : forall cfg st h w l en,
+  diag_equiv_statement ->
+  2 <= h -> 2 <= w ->
+  length l = h * w -> (forall a, In a l -> is_boolexpr a = true) ->
+  fresh_below (next_id st) l -> acts_defined en l ->
+  exists st',
+    post_not_segmenting cfg st (AArr2 h w l) None = (st', None) /\
+    ((exists en', agree_below (next_id st) en en' /\
+                  in_bounds_from en' (next_id st) (new_vars st st') = true /\
+                  forallb (holds gsem_avc en') (new_cons st st') = true)
+     <-> spec_not_segmenting (grid_graph h w) (pattern en l)).
+Proof. exact NotAdjCompose.not_segmenting_grid_exact_if_diag_equiv. Qed.
+Print Assumptions not_segmenting_grid_exact_if_diag_equiv.
+
+(* single rows / columns (connectivity encoding): exact for every length *)
+Theorem not_segmenting_line_exact : forall st h w l st' en,
+  h = 1 \/ w = 1 -> length l = h * w -> (forall a, In a l -> is_boolexpr a = true) ->
+  fresh_below (next_id st) l -> acts_defined en l ->
+  post_not_segmenting false st (AArr2 h w l) None = (st', None) ->
+  ((exists en', agree_below (next_id st) en en' /\
+                in_bounds_from en' (next_id st) (new_vars st st') = true /\
+                forallb (holds gsem_avc en') (new_cons st st') = true)
+   <-> spec_not_segmenting (grid_graph h w) (pattern en l)).
+Proof. exact NotAdjCompose.not_segmenting_line_exact. Qed.
+Print Assumptions not_segmenting_line_exact.
+
+(* the grid encoding accepts exactly what the explicit-graph form accepts on
+   the corresponding grid graph: single rows / columns of any length, other
+   shapes up to the kernel-checked bound *)
+Theorem grid_form_matches_graph_form_bounded : forall st h w l en stg stx,
+  1 <= h -> 1 <= w -> (h = 1 \/ w = 1 \/ h * w <= 12) ->
+  length l = h * w -> (forall a, In a l -> is_boolexpr a = true) ->
+  fresh_below (next_id st) l -> acts_defined en l ->
+  post_not_segmenting false st (AArr2 h w l) None = (stg, None) ->
+  post_not_segmenting false st (AArr1 l) (Some (grid_graph h w)) = (stx, None) ->
+  (completable st stg en <-> completable st stx en).
+Proof. exact NotAdjCompose.grid_form_matches_graph_form_bounded. Qed.
+Print Assumptions grid_form_matches_graph_form_bounded.
+
+(* error points *)
+Theorem empty_grid_behaviour : forall st h w,
+  h * w = 0 ->
+  post_not_adjacent st (AArr2 h w []) None = (st, None) /\
+  post_not_segmenting false st (AArr2 h w []) None = (st, Some ValueError).
+Proof. exact NotAdjCompose.empty_grid_behaviour. Qed.
+Print Assumptions empty_grid_behaviour.
+
+Theorem zero_vertex_graph_behaviour : forall st g,
+  nv g = 0 -> edges g = [] ->
+  post_not_segmenting false st (AArr1 []) (Some g) = (st, Some ValueError).
+Proof. exact NotAdjCompose.zero_vertex_graph_behaviour. Qed.
+Print Assumptions zero_vertex_graph_behaviour.
+
+Theorem wrapper_type_errors : forall cfg st h w l g l',
   post_not_adjacent st (AArr2 h w l) (Some g) = (st, Some TypeError) /\
   post_not_adjacent st (ASeq l') None = (st, Some TypeError) /\
-  post_not_adjacent st (AArr1 l') None = (st, Some TypeError).
-Proof. intros; repeat split. Qed.
-Print Assumptions not_adjacent_wrapper_type_errors.
+  post_not_adjacent st (AArr1 l') None = (st, Some TypeError) /\
+  post_not_segmenting cfg st (AArr2 h w l) (Some g) = (st, Some TypeError) /\
+  post_not_segmenting cfg st (ASeq l') None = (st, Some TypeError) /\
+  post_not_segmenting cfg st (AArr1 l') None = (st, Some TypeError).
+Proof. exact NotAdjCompose.wrapper_type_errors. Qed.
+Print Assumptions wrapper_type_errors.
